@@ -20,6 +20,7 @@ EXTENDS ExprAbs
 \* Deviations (off in shipped configurations; they show that the invariants have teeth):
 \*   "IteratorDropsRight":   the iterator does not push the right operand of an infix node
 \*   "SubstSkipsFunctionArg": substitution does not descend into function-call arguments
+\*   "SubstReplacesSameNamedRegion": substitution also replaces name[0] by the image of the variable `name`
 CONSTANT Deviations
 
 \* substitute_variables: sigma is a function from variable names to expressions
@@ -29,6 +30,8 @@ Subst(e, sigma) ==
     [] e.t = "inf" -> Inf(Subst(e.l, sigma), e.op, Subst(e.r, sigma))
     [] e.t \in {"neg", "pos"} -> [t |-> e.t, e |-> Subst(e.e, sigma)]
     [] e.t = "var" -> (IF e.v \in DOMAIN sigma THEN sigma[e.v] ELSE e)
+    [] e.t = "addr" /\ "SubstReplacesSameNamedRegion" \in Deviations /\ e.m.index = 0 /\ e.m.name \in DOMAIN sigma
+         -> sigma[e.m.name]
     [] OTHER -> e
 
 \* the memory references of an expression, left to right (with repetitions)
@@ -97,15 +100,16 @@ MemRefsInOrder == phase = "done" => outs = MemRefs(tree)      \* more than the s
 VarNames == {"x", "y"}
 RhoVals  == [x |-> 123, y |-> 777]
 SigmaNum == [x |-> GNum(5), y |-> GNum(9)]                    \* substitution by numbers
-SigmaExp == [x |-> Inf(Var("y"), "+", GNum(1)), y |-> Addr("m", 1)]   \* substitution by expressions
-MemVals  == [m |-> <<901, 333>>, n |-> <<12, 640>>]
+SigmaExp == [x |-> Inf(Var("y"), "+", GNum(1)), y |-> Addr("x", 1)]   \* substitution by expressions
+\* the region x shares its name with the variable x: substitution and lookup must keep the two name spaces apart
+MemVals  == [x |-> <<901, 333>>, n |-> <<12, 640>>]
 Restrict(f, D) == [v \in D |-> f[v]]
-\* region -> length: m absent / 0 / 1 / 2, n absent / 0 / 1 (the alphabets use m[0], m[1], n[0])
-MemShapes == { s \in UNION { [D -> 0..2] : D \in SUBSET {"m", "n"} } : "n" \in DOMAIN s => s["n"] <= 1 }
+\* region -> length: x absent / 0 / 1 / 2, n absent / 0 / 1 (the alphabets use x[0], x[1], n[0])
+MemShapes == { s \in UNION { [D -> 0..2] : D \in SUBSET {"x", "n"} } : "n" \in DOMAIN s => s["n"] <= 1 }
 MemOf(shape) == [r \in DOMAIN shape |-> SubSeq(MemVals[r], 1, shape[r])]
 \* the substitution laws do not depend on how definedness comes about: three memories suffice there
-\* (nothing, everything, m[0] only); definedness itself is checked on every shape
-FewShapes == { s \in MemShapes : s = << >> \/ s = [m |-> 2, n |-> 1] \/ s = [m |-> 1] }
+\* (nothing, everything, x[0] only); definedness itself is checked on every shape
+FewShapes == { s \in MemShapes : s = << >> \/ s = [x |-> 2, n |-> 1] \/ s = [x |-> 1] }
 
 \* "evaluation succeeds iff every variable and referenced memory cell is supplied"
 Supplied(e, vdom, shape) ==
